@@ -67,6 +67,10 @@ TRUSTED_BASE = [
     "record the clock before and after Handle and are re-issued until the reference verdict is the same at both ends",
     "a share of the signature cases runs behind req.SetPath(req.Path()) or a real RequestAdaptor whose path rule does not apply; the expected "
     "verdict and the model see the request as delivered by the server (before that filter)",
+    "a share of the signature cases runs with time.Local set to a fixed non-UTC zone for the duration of the case (single goroutine, restored)",
+    "FILE-mode histories (group etcd, mode=file): the user file is rewritten in place or replaced by rename; the harness polls (<= 3 s) for a marker "
+    "user of the new version; the code watches the inode, so per generation at most one replacement is played (after it only a reload re-watches)",
+    "group x also asks the PREVIOUS (closed) generation after a reload: it must answer as before its close",
     "instances with an oauth2.jwt section are only constructed (group x), never asked",
     "signature time checks use the real clock (signer.go calls time.Now): cases keep >= 20 s distance from every ttl/expiry boundary",
 ]
